@@ -95,10 +95,16 @@ def run(tier, seed):
         rep.assume(a)
     for c in (S.append, S.full, S.assemble):
         api.verify(c, rep, replay=lambda n, i, nt, c=c: replay_clause(c, n, i, nt))
+    # the last clause of the property: the sterile copy (SterilePacket.sterile
+    # relative to the assembled frame; append_writer records exactly the
+    # accepted write datagrams)
+    from props import c21_user
+    c21_user.verify(rep)
+    api.REGISTRY[S.assemble.qualname] = S.assemble
     return rep.finish(
         explanation="pyvc: symbolic execution of the real source of "
-        "Packet.append/full/assemble against sidecar contracts; one z3 query "
-        "per clause per path; lists of any length via loop invariants",
+        "Packet.append/full/assemble and SterilePacket.sterile/append_writer against sidecar contracts; one z3 "
+        "query per clause per path; lists of any length via loop invariants",
         trusted_base=["pyvc encoding of the Python subset (vc/pyvc)", "z3 5.1 / cvc5 1.0",
                       "assumed contracts of struct and builtins (see assumptions)"])
 
